@@ -262,6 +262,18 @@ def gate_election(n_rows, n_non, seed, dup=False, lo=40, hi=900):
         feed.append(
             dict(postal_code=st, geographic_unit_fips=fid, results_turnout=t, results_dem=dem, results_gop=t - dem, percent_expected_vote=pev)
         )
+    if seed % 3 == 2 and not dup:
+        # one more baseline unit whose feed row carries votes but no expected-vote percentage (the provider has not
+        # estimated it yet): it is neither at nor below the threshold, so it is not a reporting unit - it must not enter
+        # the fit, the calibration or the unit count of the gate (seeded changes C05_H, C14_G)
+        r = dict(rows[0])
+        r["geographic_unit_fips"] = r["county_fips"] + "_99999"
+        rows.append(r)
+        f0 = dict(feed[0])
+        f0["geographic_unit_fips"] = r["geographic_unit_fips"]
+        f0["results_turnout"], f0["results_dem"], f0["results_gop"] = f0["results_turnout"] * 6 // 10, f0["results_dem"] * 6 // 10, f0["results_turnout"] * 6 // 10 - f0["results_dem"] * 6 // 10
+        f0["percent_expected_vote"] = float("nan")
+        feed.append(f0)
     if dup and n_units > 0:
         # the repeated id is either an exact copy or a later version of the same unit with other vote counts
         d = dict(feed[int(rng.integers(0, n_units))])
